@@ -5,7 +5,6 @@ import (
 	"errors"
 	"hash/maphash"
 	"io"
-	"math"
 	"reflect"
 	"slices"
 	"strings"
@@ -379,7 +378,7 @@ func (s unicodeString) utf16Runes() []rune {
 }
 
 func (s unicodeString) ToInteger() int64 {
-	return 0
+	return s.ToNumber().ToInteger()
 }
 
 func (s unicodeString) toString() String {
@@ -391,7 +390,7 @@ func (s unicodeString) ToString() Value {
 }
 
 func (s unicodeString) ToFloat() float64 {
-	return math.NaN()
+	return s.ToNumber().ToFloat()
 }
 
 func (s unicodeString) ToBoolean() bool {
@@ -406,7 +405,15 @@ func (s unicodeString) toTrimmedUTF8() string {
 }
 
 func (s unicodeString) ToNumber() Value {
-	return asciiString(s.toTrimmedUTF8()).ToNumber()
+	trimmed := s.toTrimmedUTF8()
+	for i := 0; i < len(trimmed); i++ {
+		if trimmed[i] >= utf8.RuneSelf {
+			// a StringNumericLiteral is pure ASCII once the StrWhiteSpace is removed
+			// (and asciiString.ToNumber would strip U+0085, which is not ECMAScript white space)
+			return _NaN
+		}
+	}
+	return asciiString(trimmed).ToNumber()
 }
 
 func (s unicodeString) ToObject(r *Runtime) *Object {
